@@ -173,6 +173,9 @@ def contains(I, container, x):
             return x in container
         except TypeError as ex:
             raise PyRaise(ex)
+    if isinstance(container, (list, tuple, set, frozenset)) and len(container) > 3 and isinstance(x, SV) \
+            and all(isinstance(e, str) for e in container) and entailed(I, V.is_VStr(x.t)):
+        return z3.InRe(V.vs(x.t), z3.Union(*[z3.Re(str(e)) for e in container]))
     if isinstance(container, (list, tuple, set, frozenset)):
         alts = [I.eq(x, e) for e in container]
         if any(a is True for a in alts):
@@ -1182,6 +1185,51 @@ def _hasattr(I, args, kwargs):
 @model(print)
 def _print(I, args, kwargs):
     return None
+
+
+import keyword as _keyword   # noqa
+
+
+@model(_keyword.iskeyword)
+def _iskeyword(I, args, kwargs):
+    (x,) = args
+    if isinstance(x, SV):
+        _used("keyword.iskeyword = membership in this interpreter's keyword.kwlist")
+        t = x.t
+        return SV(V.VBool(z3.And(V.is_VStr(t), z3.InRe(V.vs(t), z3.Union(*[z3.Re(k) for k in _keyword.kwlist])))))
+    return _keyword.iskeyword(x)
+
+
+class CharSetOf:
+    """set(<symbolic string>): only compared with concrete character sets"""
+
+
+V.REG.register(CharSetOf, ["s"])
+
+
+@model(set)
+def _set(I, args, kwargs):
+    if not args:
+        return set()
+    x = args[0]
+    if isinstance(x, SV) and entailed(I, V.is_VStr(x.t)):
+        return Obj(CharSetOf, {"s": x})
+    if isinstance(x, (SV, MList)):
+        raise Unsupported("set() of a symbolic sequence")
+    if deep_symbolic(x):
+        raise Unsupported("set() with symbolic elements")
+    return set(I.iterate(x))
+
+
+def charset_eq(I, cs, concrete):
+    s = V.vs(lower(cs.attrs["s"]))
+    if not isinstance(concrete, (set, frozenset)) or not all(isinstance(c, str) and len(c) == 1 for c in concrete):
+        raise Unsupported("set(str) compared with something that is not a set of characters")
+    if not concrete:
+        return z3.Length(s) == 0
+    chars = sorted(concrete)
+    union = z3.Union(*[z3.Re(c) for c in chars]) if len(chars) > 1 else z3.Re(chars[0])
+    return z3.And(z3.InRe(s, z3.Plus(union)), *[z3.Contains(s, V.S(c)) for c in chars])
 
 
 @model(json.loads)
